@@ -1,5 +1,7 @@
 """C05 — division_connected holds exactly for labelings whose classes are connected."""
+import copy
 import itertools
+import operator
 
 import exprio
 import graphcap
@@ -13,7 +15,12 @@ RULE = ("tie P: the program really posted by cspuz.graph._division_connected / d
         "labeling, satisfiability of the really posted program (z3 through an independent tree->z3 converter; "
         "GRAPH_ACTIVE_VERTICES_CONNECTED nodes evaluated by their specification on every z3 model of the rest) "
         "vs an independent Python oracle (classes connected, labels used, roots).  A case is non-trivial when it "
-        "is a distinct (function, graph, options, label form, roots) tuple / a distinct (graph, options, labeling).")
+        "is a distinct (function, graph, options, label form, roots) tuple / a distinct (graph, options, labeling).  "
+        "Input forms: the model always sees the materialised roots list, the real code gets it as list / tuple / "
+        "user sequence / one-shot iterator (generator, map, iter, reversed, zip), grid entries as tuple / list / "
+        "one-shot; edges in both stored orientations; every keyword given / omitted / taken from the config; the "
+        "same objects used twice (second program tied against the model on the state left by the first call) and "
+        "arguments compared with a deep copy taken before the call (kind 'args-unchanged').")
 TRUSTED = [
     "meaning of Op.GRAPH_ACTIVE_VERTICES_CONNECTED is *defined* as connectivity of the active vertices (Graph/Division.v avc_sem = connected_b on the decoded operands); the external solver implementing it is trusted",
     "Core/Expr.v eval as the ordinary meaning of the expression trees (cross-checked on every sampled z3 model: kind 'eval-vs-z3model')",
@@ -24,6 +31,9 @@ ASSUMPTIONS = [
     "graph endpoints lie in [0, num_vertices) (Graph.add_edge raises otherwise or wraps negative ids)",
     "label entries are IntExprLike (IntExpr / IntVar / int, not bool); roots entries are None, int (not bool) or tuples of ints",
     "num_regions is a non-negative int; grid roots (y, x) lie inside the grid (division_connected does not check that)",
+    "division is a Sequence as annotated (indexable and re-iterable: list, tuple, IntArray1D/2D, user sequence); a one-shot "
+    "iterator as *division* is outside the domain (the code indexes it: TypeError as soon as an edge, a root or the "
+    "primitive route touches it).  roots, in contrast, may be any iterable walked once (compass.py passes a map object)",
 ]
 
 ERR = {1: "IndexError", 2: "KeyError", 3: "AssertionError", 4: "TypeError", 5: "ValueError",
@@ -162,15 +172,112 @@ def parse_reply(r):
     raise RuntimeError("bad model reply " + r[:200])
 
 
+class PlainSeq:
+    """a user-defined sequence: only __getitem__ / __len__ (iterated through the old protocol)"""
+
+    def __init__(self, items):
+        self._items = list(items)
+
+    def __getitem__(self, i):
+        return self._items[i]
+
+    def __len__(self):
+        return len(self._items)
+
+
 def mk_division(labels, kind, h=None, w=None):
     from cspuz.array import IntArray1D, IntArray2D
     if kind == "L":
         return list(labels)
     if kind == "T":
         return tuple(labels)
+    if kind == "S":
+        return PlainSeq(labels)
     if kind == "A":
         return IntArray1D(labels)
     return IntArray2D(labels, (h, w))
+
+
+# forms in which the caller may hand over `roots` (the model / the oracle always see the plain list)
+ROOT_FORMS = ("list", "tuple", "seq", "gen", "map", "iter", "reversed", "zip")
+ONE_SHOT = ("gen", "map", "iter", "reversed", "zip")
+ENTRY_FORMS = ("tuple", "list", "iter", "gen")
+
+
+def wrap_entry(r, eform):
+    if not isinstance(r, tuple) or eform == "tuple":
+        return r
+    if eform == "list":
+        return list(r)
+    if eform == "iter":
+        return iter(r)
+    return (c for c in r)
+
+
+def wrap_roots(roots, rform="list", eform="tuple"):
+    """the same roots, as the container / one-shot iterable named by rform; (y, x) entries as eform"""
+    if roots is None:
+        return None
+    items = [wrap_entry(r, eform) for r in roots]
+    if rform == "list":
+        return items
+    if rform == "tuple":
+        return tuple(items)
+    if rform == "seq":
+        return PlainSeq(items)
+    if rform == "gen":
+        return (r for r in items)
+    if rform == "map":
+        return map(lambda r: r, items)
+    if rform == "iter":
+        return iter(items)
+    if rform == "reversed":
+        return reversed(items[::-1])
+    if rform == "zip":
+        return map(operator.itemgetter(0), zip(items, itertools.count()))
+    raise RuntimeError("roots form " + rform)
+
+
+def pick_forms(rng, roots, reusable=False):
+    """(rform, eform) for a roots value; reusable: the object is used for two calls (no one-shot pieces)"""
+    if roots is None:
+        return "list", "tuple"
+    if reusable:
+        return rng.choice(["list", "list", "tuple", "seq"]), rng.choice(["tuple", "tuple", "list"])
+    rform = "list" if rng.random() < 0.35 else rng.choice(ROOT_FORMS[1:])
+    eform = "tuple" if rng.random() < 0.75 else rng.choice(ENTRY_FORMS[1:])
+    return rform, eform
+
+
+def orient(rng, es, mode=None):
+    """the same multigraph with edges stored as (larger, smaller) / mixed"""
+    if mode is None:
+        mode = rng.choice(["asc", "desc", "mixed", "mixed"])
+    if mode == "keep":
+        return list(es)
+    if mode == "asc":
+        return [(min(a, b), max(a, b)) for a, b in es]
+    if mode == "desc":
+        return [(max(a, b), min(a, b)) for a, b in es]
+    return [(b, a) if rng.random() < 0.5 else (a, b) for a, b in es]
+
+
+def graph_snapshot(g):
+    return (g.num_vertices, list(g.edges), [list(x) for x in g.incident_edges])
+
+
+def plain(x):
+    """comparable deep copy of an argument: containers by structure, ints by type and value, any other
+    object (expressions, one-shot iterators) by identity"""
+    if isinstance(x, PlainSeq):
+        return ["seq"] + [plain(y) for y in x._items]
+    if isinstance(x, (list, tuple)):
+        return [type(x).__name__] + [plain(y) for y in x]
+    if x is None or isinstance(x, int):
+        return (type(x).__name__, x)
+    if isinstance(getattr(x, "data", None), list):
+        return ["arr", getattr(x, "shape", None)] + [plain(y) for y in x.data]
+    return ("obj", id(x))
 
 
 class cfg_primitive:
@@ -189,52 +296,100 @@ class cfg_primitive:
         self.config.use_graph_primitive = self.old
 
 
-def run_private(case):
-    """real _division_connected on a fresh Solver; returns (before_state, outcome)"""
+P_CALL_FORMS = ("kw", "kw", "kw-anti", "cfg", "none", "pos", "omit")
+W_CALL_FORMS = ("kw", "kw", "gkw", "omit")
+
+
+def invoke(case, s, div, g, roots):
+    """the real call, spelled the way case['cf'] says (every keyword given / omitted / positional / from config)"""
+    from cspuz.graph import _division_connected, division_connected
+    R, aeg, prim = case["R"], case["aeg"], case["prim"]
+    cf = case.get("cf") or ("cfg" if case.get("via_config") else "kw")
+    if case["fn"] == "P":
+        if cf == "kw":
+            _division_connected(s, div, R, g, roots=roots, allow_empty_group=aeg, use_graph_primitive=prim)
+        elif cf == "kw-anti":       # an explicit argument wins over the configuration
+            with cfg_primitive(not prim):
+                _division_connected(s, div, R, g, roots=roots, allow_empty_group=aeg, use_graph_primitive=prim)
+        elif cf == "cfg":
+            with cfg_primitive(prim):
+                _division_connected(s, div, R, g, roots=roots, allow_empty_group=aeg)
+        elif cf == "none":
+            with cfg_primitive(prim):
+                _division_connected(s, div, R, g, roots=roots, allow_empty_group=aeg, use_graph_primitive=None)
+        elif cf == "pos":
+            with cfg_primitive(not prim):
+                _division_connected(s, div, R, g, roots, aeg, prim)
+        elif cf == "omit":
+            kw = {}
+            if roots is not None:
+                kw["roots"] = roots
+            if aeg:
+                kw["allow_empty_group"] = True
+            with cfg_primitive(not prim):
+                _division_connected(solver=s, division=div, num_regions=R, graph=g, use_graph_primitive=prim, **kw)
+        else:
+            raise RuntimeError("call form " + cf)
+        return
+    with cfg_primitive(prim):
+        if cf == "kw":
+            if g is None:
+                division_connected(s, div, R, roots=roots, allow_empty_group=aeg)
+            else:
+                division_connected(s, div, R, g, roots=roots, allow_empty_group=aeg)
+        elif cf == "gkw":
+            division_connected(s, div, num_regions=R, graph=g, roots=roots, allow_empty_group=aeg)
+        elif cf == "omit":
+            kw = {}
+            if roots is not None:
+                kw["roots"] = roots
+            if aeg:
+                kw["allow_empty_group"] = True
+            if g is not None:
+                kw["graph"] = g
+            division_connected(solver=s, division=div, num_regions=R, **kw)
+        else:
+            raise RuntimeError("call form " + cf)
+
+
+def run_case(case):
+    """real call(s) on a fresh Solver.  Returns a dict: before / ltxt (the model's inputs), out (outcome of the
+    call), args_ok (division, roots, graph unchanged by the call), and for case['twice'] also state1 / out2: the
+    same call repeated on the same Solver, Graph and containers."""
     from cspuz import Solver
-    from cspuz.graph import _division_connected
     s = Solver()
     labels = build_labels(s, case["recipe"])
     before = exprio.show_state(s)
     ltxt = exprio.show_list(labels)
-    g = graphcap.mk_graph(case["n"], case["edges"])
-    div = mk_division(labels, case["kind"])
+    g = None if case["n"] is None else graphcap.mk_graph(case["n"], case["edges"])
+    div = mk_division(labels, case["kind"], case.get("h"), case.get("w"))
+    rform, eform = case.get("rform", "list"), case.get("eform", "tuple")
+    roots = wrap_roots(case["roots"], rform, eform)
+    snap = (plain(div), plain(roots), None if g is None else graph_snapshot(g), plain(labels))
 
     def call():
-        if case.get("via_config"):
-            with cfg_primitive(case["prim"]):
-                _division_connected(s, div, case["R"], g, roots=case["roots"], allow_empty_group=case["aeg"])
-        else:
-            _division_connected(s, div, case["R"], g, roots=case["roots"], allow_empty_group=case["aeg"],
-                                use_graph_primitive=case["prim"])
+        invoke(case, s, div, g, roots)
         return exprio.show_state(s)
-    return before, ltxt, vlib.guarded(call), s, labels
+    res = {"before": before, "ltxt": ltxt, "solver": s, "labels": labels}
+    res["out"] = vlib.guarded(call)
+    res["args_ok"] = snap == (plain(div), plain(roots), None if g is None else graph_snapshot(g), plain(labels))
+    if case.get("twice") and res["out"][0] == "ok":
+        res["state1"] = res["out"][1]
+        if rform in ONE_SHOT or eform in ("iter", "gen"):
+            roots = wrap_roots(case["roots"], rform, eform)     # a one-shot object cannot be used again
+        res["out2"] = vlib.guarded(call)
+        res["args_ok"] = res["args_ok"] and snap[2:] == (None if g is None else graph_snapshot(g), plain(labels))
+    return res
+
+
+def build_request(case, before, ltxt):
+    return req_private(case, before, ltxt) if case["fn"] == "P" else req_wrapper(case, before, ltxt)
 
 
 def req_private(case, before, ltxt):
     return "P %d %d %d %s %s %s %s %s" % (
         case["prim"], case["aeg"], case["R"], "A" if case["kind"] == "A" else "L",
         graphcap.graph_tok(case["n"], case["edges"]), ltxt, roots_tok(case["roots"]), before)
-
-
-def run_wrapper(case):
-    from cspuz import Solver
-    from cspuz.graph import division_connected
-    s = Solver()
-    labels = build_labels(s, case["recipe"])
-    before = exprio.show_state(s)
-    ltxt = exprio.show_list(labels)
-    div = mk_division(labels, case["kind"], case.get("h"), case.get("w"))
-    g = None if case["n"] is None else graphcap.mk_graph(case["n"], case["edges"])
-
-    def call():
-        with cfg_primitive(case["prim"]):
-            if g is None:
-                division_connected(s, div, case["R"], roots=case["roots"], allow_empty_group=case["aeg"])
-            else:
-                division_connected(s, div, case["R"], g, roots=case["roots"], allow_empty_group=case["aeg"])
-        return exprio.show_state(s)
-    return before, ltxt, vlib.guarded(call), s, labels
 
 
 def req_wrapper(case, before, ltxt):
@@ -249,7 +404,8 @@ def req_wrapper(case, before, ltxt):
 def case_key(case):
     return (case["fn"], case.get("n"), tuple(case.get("edges") or ()), case.get("h"), case.get("w"), case["kind"],
             case["R"], case["aeg"], case["prim"], case.get("via_config", False),
-            repr(case["roots"]), repr(case["recipe"]))
+            repr(case["roots"]), repr(case["recipe"]), case.get("rform", "list"), case.get("eform", "tuple"),
+            case.get("cf"), bool(case.get("twice")))
 
 
 # ---------------------------------------------------------------- correspondence cases
@@ -257,7 +413,7 @@ def case_key(case):
 FORMS = ["vars", "vars", "ints", "mixed", "exprs", "wide"]
 
 
-def gen_corr_cases(ctx):
+def gen_corr_cases_raw(ctx):
     rng = ctx.rng
     # (1) exhaustive small multigraphs x num_regions x allow_empty_group x encodings x roots forms
     graphs = list(graphcap.all_multigraphs(4, 4))
@@ -269,7 +425,7 @@ def gen_corr_cases(ctx):
                     if not ctx.thorough and n == 4 and len(es) >= 3 and rng.random() < 0.5:
                         continue
                     form = rng.choice(FORMS)
-                    kind = rng.choice(["A", "A", "L", "T"])
+                    kind = rng.choice(["A", "A", "L", "T", "S"])
                     yield {"fn": "P", "n": n, "edges": es, "R": R, "aeg": aeg, "prim": prim, "kind": kind,
                            "via_config": rng.random() < 0.2, "roots": gen_roots(rng, n, R),
                            "recipe": gen_recipe(rng, n, R, form), "src": "exh"}
@@ -278,7 +434,7 @@ def gen_corr_cases(ctx):
         n, es = graphcap.random_multigraph(rng, 9, loops=rng.random() < 0.3)
         R = rng.choice([1, 2, 3, 4, 5])
         yield {"fn": "P", "n": n, "edges": es, "R": R, "aeg": rng.random() < 0.5, "prim": rng.random() < 0.5,
-               "kind": rng.choice(["A", "L", "T"]), "via_config": rng.random() < 0.2,
+               "kind": rng.choice(["A", "L", "T", "S"]), "via_config": rng.random() < 0.2,
                "roots": gen_roots(rng, n, R), "recipe": gen_recipe(rng, n, R, rng.choice(FORMS)), "src": "rand"}
     # (3) public wrapper: grids
     for (h, w) in graphcap.grid_shapes(16 if ctx.thorough else 12):
@@ -291,8 +447,8 @@ def gen_corr_cases(ctx):
     for _ in range(120 if ctx.thorough else 40):
         n, es = graphcap.random_multigraph(rng, 6)
         R = rng.choice([1, 2, 3])
-        yield {"fn": "W", "n": n, "edges": es, "kind": rng.choice(["A", "L"]), "R": R, "aeg": rng.random() < 0.5,
-               "prim": rng.random() < 0.5, "roots": gen_roots(rng, n, R),
+        yield {"fn": "W", "n": n, "edges": es, "kind": rng.choice(["A", "L", "T", "S"]), "R": R,
+               "aeg": rng.random() < 0.5, "prim": rng.random() < 0.5, "roots": gen_roots(rng, n, R),
                "recipe": gen_recipe(rng, n, R, rng.choice(FORMS)), "src": "wrap-graph"}
     # (5) malformed stream: wrong lengths, 0 vertices, num_regions 0, bad roots, wrong argument combinations
     for _ in range(400 if ctx.thorough else 120):
@@ -339,25 +495,112 @@ def gen_corr_cases(ctx):
                    "recipe": gen_recipe(rng, h * w, 2, "vars"), "src": "mal-2dgraph"}
 
 
+def structured_graphs(rng, thorough=False):
+    """(name, n, edges) of structured graphs just beyond the exhaustive scope; every edge list in a random
+    stored orientation (cycles closed by a reversed edge, parallel edges, a loop)"""
+    out = []
+    for n in (7, 8, 9, 10) + ((12, 16) if thorough else ()):
+        out.append(("path%d" % n, n, [(i, i + 1) for i in range(n - 1)]))
+        out.append(("cycle%d" % n, n, [(i, i + 1) for i in range(n - 1)] + [(n - 1, 0)]))
+    out.append(("2cycles8", 8, [(0, 1), (1, 2), (2, 3), (3, 0), (4, 5), (5, 6), (6, 7), (7, 4)]))
+    out.append(("wheel7", 7, [(0, i) for i in range(1, 7)] + [(i, i % 6 + 1) for i in range(1, 7)]))
+    out.append(("star9", 9, [(0, i) for i in range(1, 9)]))
+    for k in (5, 6, 7):
+        out.append(("K%d" % k, k, [(a, b) for a in range(k) for b in range(a + 1, k)]))
+    out.append(("prism8", 8, [(i, (i + 1) % 4) for i in range(4)] + [(4 + i, 4 + (i + 1) % 4) for i in range(4)]
+                + [(i, i + 4) for i in range(4)]))
+    out.append(("comb10", 10, [(i, i + 1) for i in range(4)] + [(i, i + 5) for i in range(5)]))
+    out.append(("multipath7", 7, [(i, i + 1) for i in range(6)] + [(2, 3), (3, 2), (5, 5)]))
+    return [(nm, n, orient(rng, es)) for nm, n, es in out]
+
+
+def gen_corr_cases(ctx):
+    """every raw case, decorated with the input forms of the hardening classes: container / one-shot form of
+    roots, spelling of the call, a second call on the same objects; plus structured larger graphs"""
+    rng = ctx.rng
+
+    def decorate(case):
+        grid = case["fn"] == "W" and case["n"] is None and case["kind"] == "G"
+        twice = rng.random() < 0.15
+        rform, eform = pick_forms(rng, case["roots"], reusable=twice and rng.random() < 0.5)
+        case["rform"] = rform
+        case["eform"] = eform if grid else "tuple"
+        if not case.get("via_config"):
+            case["cf"] = rng.choice(P_CALL_FORMS if case["fn"] == "P" else W_CALL_FORMS)
+        case["twice"] = twice
+        return case
+    for case in gen_corr_cases_raw(ctx):
+        yield decorate(case)
+    # (6) every roots form x both functions x both routes on a fixed board / graph (the forms are never left to chance)
+    for rform in ROOT_FORMS:
+        for eform in ENTRY_FORMS:
+            for prim in (False, True):
+                h, w = rng.choice([(2, 3), (3, 2), (1, 4), (3, 3)])
+                R = rng.choice([2, 3])
+                roots = [(rng.randrange(h), rng.randrange(w)) if k == 0 or rng.random() < 0.6 else None
+                         for k in range(R)]
+                yield {"fn": "W", "n": None, "edges": None, "h": h, "w": w, "kind": "G", "R": R,
+                       "aeg": rng.random() < 0.5, "prim": prim, "roots": roots, "rform": rform, "eform": eform,
+                       "cf": rng.choice(W_CALL_FORMS), "recipe": gen_recipe(rng, h * w, R, "vars"),
+                       "src": "forms-grid"}
+        for fn in ("P", "W"):
+            for prim in (False, True):
+                n, es = graphcap.random_multigraph(rng, 6)
+                R = rng.choice([2, 3])
+                roots = [rng.randrange(n) if k == 0 or rng.random() < 0.6 else None for k in range(R)]
+                yield {"fn": fn, "n": n, "edges": es, "kind": rng.choice(["A", "L", "T", "S"]), "R": R,
+                       "aeg": rng.random() < 0.5, "prim": prim, "roots": roots, "rform": rform, "eform": "tuple",
+                       "cf": rng.choice(P_CALL_FORMS if fn == "P" else W_CALL_FORMS),
+                       "recipe": gen_recipe(rng, n, R, rng.choice(FORMS)), "src": "forms-graph"}
+    # (7) structured graphs beyond the exhaustive scope, many regions, both routes
+    for (nm, n, es) in structured_graphs(rng, ctx.thorough):
+        for R in sorted({1, 2, n // 2, n - 1, n, n + 1}):
+            if R < 1:
+                continue
+            yield decorate({"fn": rng.choice(["P", "P", "W"]), "n": n, "edges": es,
+                            "kind": rng.choice(["A", "L", "T", "S"]), "R": R, "aeg": rng.random() < 0.6,
+                            "prim": rng.random() < 0.4, "roots": gen_roots(rng, n, R),
+                            "recipe": gen_recipe(rng, n, R, rng.choice(FORMS)), "src": "structured"})
+    # (8) larger boards through the public wrapper (1xN, Nx1, 2x7, 4x5, 5x5, 7x7), many regions
+    for (h, w) in [(1, 7), (1, 10), (9, 1), (2, 7), (7, 2), (4, 5), (5, 4), (5, 5), (7, 7)]:
+        for R in sorted({2, (h * w) // 2, h * w - 1, h * w}):
+            if h * w >= 25 and R > 3 and not ctx.thorough and rng.random() < 0.5:
+                continue
+            yield decorate({"fn": "W", "n": None, "edges": None, "h": h, "w": w, "kind": "G", "R": R,
+                            "aeg": rng.random() < 0.6, "prim": rng.random() < 0.4,
+                            "roots": gen_grid_roots(rng, h, w, R),
+                            "recipe": gen_recipe(rng, h * w, R, "vars"), "src": "boards"})
+
+
 def correspond(ctx):
     m = ctx.model("C05")
     cases, reqs, impl = [], [], []
     for case in gen_corr_cases(ctx):
-        if case["fn"] == "P":
-            before, ltxt, out, _, _ = run_private(case)
-            reqs.append(req_private(case, before, ltxt))
-        else:
-            before, ltxt, out, _, _ = run_wrapper(case)
-            reqs.append(req_wrapper(case, before, ltxt))
+        r = run_case(case)
+        reqs.append(build_request(case, r["before"], r["ltxt"]))
         cases.append(case)
-        impl.append(out)
+        impl.append(r["out"])
+        ctx.count("roots-form:" + ("none" if case["roots"] is None else case.get("rform", "list")))
+        ctx.count("entry-form:" + case.get("eform", "tuple"))
+        ctx.count("call-form:" + (case.get("cf") or "cfg"))
+        ctx.count("division-kind:" + case["kind"])
+        ctx.corr("args-unchanged", case_key(case), True, r["args_ok"])
+        if "out2" in r:
+            # the same call once more on the same Solver / Graph / containers: the model continues from the
+            # state the first call really left
+            c2 = dict(case)
+            c2["src"] = "second-call"
+            c2["second"] = True
+            reqs.append(build_request(case, r["state1"], r["ltxt"]))
+            cases.append(c2)
+            impl.append(r["out2"])
     outs = m.batch(reqs)
     for case, o, io in zip(cases, outs, impl):
         mo = parse_reply(o)
         ctx.count("src:" + case["src"])
         ctx.count("route:" + ("primitive" if case["prim"] else "aux"))
         ctx.count("outcome:" + (io[0] if io[0] == "ok" else io[1]))
-        ctx.corr("program:" + case["fn"], case_key(case), mo, io)
+        ctx.corr("program:" + case["fn"] + (":second-call" if case.get("second") else ""), case_key(case), mo, io)
     # the grid graph itself (also part of C04's tie; cheap)
     for (h, w) in graphcap.grid_shapes(12):
         from cspuz.graph import _grid_graph
@@ -521,8 +764,93 @@ def env_tok(solver, model):
     return " ".join(str(int(model[v.id])) for v in solver.variables)
 
 
+def pick_hist(rng, n_edges):
+    c = rng.random()
+    if c < 0.6:
+        return "none"
+    if c < 0.75:
+        return "warm"
+    if c < 0.9 or n_edges == 0:
+        return "double"
+    return "grow"
+
+
+def graph_scenario(rng, n, es, R, aeg, prim, roots, kinds=("A", "L", "T", "S"), orientation=None):
+    """a call on an explicit graph, with the input forms drawn at random: stored edge orientation, container of
+    division, form of roots, function (private / public wrapper), spelling of the call, history"""
+    es = orient(rng, es, orientation)
+    hist = pick_hist(rng, len(es))
+    rform, eform = pick_forms(rng, roots, reusable=hist != "none" and rng.random() < 0.5)
+    fn = "P" if rng.random() < 0.75 else "W"
+    return {"fn": fn, "n": n, "edges": es, "shape": None, "R": R, "aeg": aeg, "prim": prim, "roots": roots,
+            "kind": rng.choice(kinds), "rform": rform, "eform": "tuple",
+            "cf": rng.choice(P_CALL_FORMS if fn == "P" else W_CALL_FORMS), "hist": hist,
+            "grow_k": rng.randrange(len(es)) if es else 0}
+
+
+def grid_scenario(rng, h, w, R, aeg, prim, roots):
+    hist = rng.choice(["none", "none", "none", "warm", "double"])
+    rform, eform = pick_forms(rng, roots, reusable=hist != "none" and rng.random() < 0.5)
+    return {"fn": "W", "n": h * w, "edges": graphcap.grid_edges(h, w), "shape": [h, w], "R": R, "aeg": aeg,
+            "prim": prim, "roots": roots, "kind": "G", "rform": rform, "eform": eform,
+            "cf": rng.choice(["kw", "kw", "omit"]), "hist": hist, "grow_k": 0}
+
+
+def post_scenario(sc):
+    """run the scenario against the real code; returns (solver, label variables in vertex order)"""
+    from cspuz import Solver
+    n, R, es = sc["n"], sc["R"], [tuple(e) for e in sc["edges"]]
+    grid = sc.get("shape") is not None
+    hist = sc.get("hist", "none")
+    rform, eform = sc.get("rform", "list"), sc.get("eform", "tuple")
+    roots = sc["roots"]
+    if roots is not None:
+        roots = [tuple(r) if isinstance(r, list) else r for r in roots]
+    case = {"fn": sc["fn"], "R": R, "aeg": sc["aeg"], "prim": sc["prim"], "cf": sc.get("cf", "kw")}
+
+    def fresh(solver):
+        if grid:
+            d = solver.int_array(tuple(sc["shape"]), 0, R - 1)
+            return d, list(d.data)
+        d = solver.int_array(n, 0, R - 1)
+        return (d if sc["kind"] == "A" else mk_division(list(d), sc["kind"])), list(d)
+    reusable = rform not in ONE_SHOT and eform not in ("iter", "gen")
+    k = sc.get("grow_k", 0)
+    g = None if grid else graphcap.mk_graph(n, es[:k] if hist == "grow" else es)
+    ro = wrap_roots(roots, rform, eform)
+    if hist in ("warm", "grow"):
+        # an earlier call on another Solver with the same Graph / roots objects (grow: the graph then gets more edges)
+        s0 = Solver()
+        div0, _ = fresh(s0)
+        invoke(case, s0, div0, g, ro)
+        if hist == "grow":
+            for e in es[k:]:
+                g.add_edge(*e)
+        if not reusable:
+            ro = wrap_roots(roots, rform, eform)
+    s = Solver()
+    div, dvars = fresh(s)
+    invoke(case, s, div, g, ro)
+    if hist == "double":
+        # the same constraint posted twice on the same Solver: still exactly the specification
+        if not reusable:
+            ro = wrap_roots(roots, rform, eform)
+        invoke(case, s, div, g, ro)
+    return s, dvars
+
+
+def oracle_roots(sc):
+    roots = sc["roots"]
+    if roots is None:
+        return None
+    if sc.get("shape") is not None:
+        w = sc["shape"][1]
+        return [None if a is None else a[0] * w + a[1] for a in roots]
+    return resolve_roots(roots, sc["n"])
+
+
 def search_scopes(ctx):
-    """(n, edges, R, aeg, prim, roots, kind) tuples whose every labeling is decided"""
+    """scenarios whose every labeling is decided"""
     rng = ctx.rng
     deep = ctx.thorough or getattr(ctx, "deep", False)
     graphs = list(graphcap.all_multigraphs(4, 4))
@@ -539,7 +867,22 @@ def search_scopes(ctx):
                     if rng.random() < 0.35:
                         roots = [rng.choice([None, rng.randrange(n), -1 - rng.randrange(n)])
                                  for _ in range(rng.choice([R, R, R, max(R - 1, 0), R + 1]))]
-                    yield n, es, R, aeg, prim, roots, rng.choice(["A", "L"])
+                    yield graph_scenario(rng, n, es, R, aeg, prim, roots)
+    # every stored orientation of the small connected shapes where orientation could matter most (paths, triangle,
+    # star, 4-cycle), auxiliary route
+    shapes = [(3, [(0, 1), (1, 2)]), (3, [(0, 1), (1, 2), (0, 2)]), (4, [(0, 1), (1, 2), (2, 3)]),
+              (4, [(0, 1), (0, 2), (0, 3)]), (4, [(0, 1), (1, 2), (2, 3), (0, 3)]), (3, [(0, 1), (0, 1), (1, 2)])]
+    for (n, es) in shapes:
+        for flips in itertools.product([False, True], repeat=len(es)):
+            if not any(flips):
+                continue
+            if not deep and rng.random() < 0.5:
+                continue
+            es2 = [(b, a) if f else (a, b) for (a, b), f in zip(es, flips)]
+            R = rng.choice([2, 2, 3])
+            roots = None if rng.random() < 0.6 else [rng.choice([None, rng.randrange(n)]) for _ in range(R)]
+            sc = graph_scenario(rng, n, es2, R, rng.random() < 0.5, False, roots, orientation="keep")
+            yield sc
     # 5 (thorough: also 6) vertices: simple graphs, sampled
     big = []
     for nn in ((5, 6) if ctx.thorough else (5,)):
@@ -554,7 +897,7 @@ def search_scopes(ctx):
         roots = None
         if rng.random() < 0.35:
             roots = [rng.choice([None, rng.randrange(n)]) for _ in range(R)]
-        yield n, es, R, rng.random() < 0.5, rng.random() < 0.4, roots, rng.choice(["A", "L"])
+        yield graph_scenario(rng, n, es, R, rng.random() < 0.5, rng.random() < 0.4, roots)
 
 
 def resolve_roots(roots, n):
@@ -563,16 +906,234 @@ def resolve_roots(roots, n):
     return [None if r is None else (r + n if r < 0 else r) for r in roots]
 
 
-def viol_key(tag, n, es, R, aeg, prim, roots, kind, labels):
-    return "%s:n%d:e%s:R%d:aeg%d:prim%d:%s:roots%s:l%s" % (
-        tag, n, "".join("%d%d" % e for e in es), R, aeg, prim, kind,
-        "-" if roots is None else ",".join("_" if r is None else str(r) for r in roots),
+def viol_key(tag, n, es, R, aeg, prim, roots, kind, labels, sc=None):
+    k = "%s:n%d:e%s:R%d:aeg%d:prim%d:%s:roots%s:l%s" % (
+        tag, n, "".join("%d%d" % tuple(e) for e in es), R, aeg, prim, kind,
+        "-" if roots is None else ",".join("_" if r is None else str(r).replace(" ", "") for r in roots),
         "".join(str(x) for x in labels))
+    if sc is not None:
+        k += ":%s:%s:%s:%s:%s" % (sc["fn"], sc.get("rform", "list"), sc.get("eform", "tuple"), sc.get("cf", "kw"),
+                                  sc.get("hist", "none"))
+    return k
+
+
+# ---- targeted labelings for instances beyond the exhaustive scope
+
+def runs_along(order, cuts, labs, n):
+    """label the vertices of `order` run by run: run r (between consecutive cut positions) gets labs[r]"""
+    lab = [0] * n
+    r = 0
+    for pos, v in enumerate(order):
+        while r < len(cuts) and pos >= cuts[r]:
+            r += 1
+        lab[v] = labs[r % len(labs)]
+    return lab
+
+
+def targeted_labelings(rng, n, R, orders, extra=(), n_random=3):
+    """a small set of labelings of n vertices with labels < R built from the vertex orders given (contiguous
+    runs along a path-like order are connected classes; alternations are not)"""
+    out = []
+    for k in sorted({0, R - 1}):
+        out.append([k] * n)                                       # one long class, the other labels unused
+    for order in orders:
+        for j in sorted({2, 3, R // 2, R - 1, R}):
+            if 2 <= j <= min(R, n):
+                cuts = [(i * n) // j for i in range(1, j)]
+                out.append(runs_along(order, cuts, list(range(j)), n))          # j equal runs, labels 0..j-1
+                out.append(runs_along(order, cuts, list(range(R - j, R)), n))   # the same with the top labels
+        if R >= 2:
+            out.append(runs_along(order, list(range(1, n)), [0, 1], n))         # alternating
+            if n >= 3:
+                out.append(runs_along(order, [1, n - 1], [0, 1, 0], n))         # both ends against the middle
+                out.append(runs_along(order, [n // 3, n - n // 3], [0, 1, 0], n))
+                out.append(runs_along(order, [1], [R - 1, 0], n))               # a singleton and a long rest
+        if R >= n:
+            out.append(runs_along(order, list(range(1, n)), list(range(n)), n))  # singletons
+        for _ in range(n_random):
+            j = rng.randint(1, min(R, n))
+            cuts = sorted(rng.sample(range(1, n), j - 1)) if n > 1 else []
+            labs = rng.sample(range(R), j)
+            out.append(runs_along(order, cuts, labs, n))
+    for lab in extra:
+        out.append(list(lab))
+    for _ in range(n_random):
+        out.append([rng.randrange(R) for _ in range(n)])
+    seen, res = set(), []
+    for lab in out:
+        t = tuple(lab)
+        if len(t) == n and all(0 <= x < R for x in t) and t not in seen:
+            seen.add(t)
+            res.append(t)
+    return res
+
+
+def board_orders(h, w):
+    row = [y * w + x for y in range(h) for x in range(w)]
+    snake = [y * w + (x if y % 2 == 0 else w - 1 - x) for y in range(h) for x in range(w)]
+    col_snake = [(y if x % 2 == 0 else h - 1 - y) * w + x for x in range(w) for y in range(h)]
+    # inward spiral visiting every cell
+    seen, spiral = set(), []
+    y, x, dy, dx = 0, 0, 0, 1
+    for _ in range(h * w):
+        spiral.append(y * w + x)
+        seen.add((y, x))
+        ny, nx = y + dy, x + dx
+        if not (0 <= ny < h and 0 <= nx < w) or (ny, nx) in seen:
+            dy, dx = dx, -dy
+            ny, nx = y + dy, x + dx
+        y, x = ny, nx
+    return {"row": row, "snake": snake, "colsnake": col_snake, "spiral": spiral}
+
+
+def board_patterns(h, w, R):
+    """named labelings of an h x w board: thin spiral corridor, serpentine with walls, staircase diagonal, X, plus"""
+    pats = []
+    # thin spiral corridor (label 0) leaving a one-cell wall (label 1)
+    cor, seen = [], set()
+    y, x, dy, dx = 0, 0, 0, 1
+    while True:
+        cor.append((y, x))
+        seen.add((y, x))
+        moved = False
+        for _ in range(2):
+            ny, nx = y + dy, x + dx
+            ay, ax = ny + dy, nx + dx
+            ok = 0 <= ny < h and 0 <= nx < w and (ny, nx) not in seen
+            if ok and (ay, ax) in seen:
+                ok = False
+            if ok:
+                # the new cell must not touch the corridor sideways
+                for (sy, sx) in ((ny + dx, nx - dy), (ny - dx, nx + dy)):
+                    if (sy, sx) in seen and (sy, sx) != (y, x):
+                        ok = False
+            if ok:
+                y, x = ny, nx
+                moved = True
+                break
+            dy, dx = dx, -dy
+        if not moved:
+            break
+    if R >= 2:
+        lab = [1] * (h * w)
+        for (cy, cx) in cor:
+            lab[cy * w + cx] = 0
+        pats.append(("spiral-corridor", lab))
+        pats.append(("spiral-corridor-top", [R - 1 if v == 0 else 0 for v in lab]))
+        # the corridor cut in the middle: a disconnected class
+        lab2 = list(lab)
+        cy, cx = cor[len(cor) // 2]
+        lab2[cy * w + cx] = 1
+        pats.append(("spiral-corridor-cut", lab2))
+    # serpentine: even rows label 0, odd rows a wall except the alternating end cell; every wall its own label
+    lab = [0] * (h * w)
+    walls = 0
+    for y in range(1, h, 2):
+        walls += 1
+        gap = w - 1 if (y // 2) % 2 == 0 else 0
+        for x in range(w):
+            if x != gap:
+                lab[y * w + x] = walls
+    if walls + 1 <= R and w >= 2:
+        pats.append(("serpentine", lab))
+        pats.append(("serpentine-one-wall-label", [min(v, 1) for v in lab]))
+    # staircase diagonal (label 0), the two sides labels 1 and 2 (or both 1: disconnected)
+    if h >= 2 and w >= 2:
+        st = set()
+        for i in range(min(h, w)):
+            st.add((i, i))
+            if i + 1 < w:
+                st.add((i, i + 1))
+        lab3 = [0 if (y, x) in st else (1 if x > y else 2) for y in range(h) for x in range(w)]
+        if R >= 3:
+            pats.append(("staircase-3", lab3))
+        if R >= 2:
+            pats.append(("staircase-2", [min(v, 1) for v in lab3]))
+    # X (two diagonals: never orthogonally connected) and plus (middle row and column, four quadrants)
+    if R >= 2 and h >= 3 and w >= 3:
+        pats.append(("X", [0 if (x == y or x + y == w - 1) else 1 for y in range(h) for x in range(w)]))
+        my, mx = h // 2, w // 2
+        quad = [0 if (y == my or x == mx) else 1 + (2 if y > my else 0) + (1 if x > mx else 0)
+                for y in range(h) for x in range(w)]
+        if R >= 5:
+            pats.append(("plus-5", quad))
+        pats.append(("plus-2", [min(v, 1) for v in quad]))
+    return pats
+
+
+def adapt_to_roots(labelings, roots_o, R):
+    """the labelings plus, for each, the one with two label names swapped so that the first listed root carries
+    its label (keeps satisfiable cases in the mix when a root is pinned)"""
+    pins = [(k, v) for k, v in enumerate(roots_o or []) if v is not None and k < R]
+    if not pins:
+        return labelings
+    k, v = pins[0]
+    out, seen = list(labelings), set(labelings)
+    for lab in labelings:
+        a = lab[v]
+        t = tuple(k if x == a else a if x == k else x for x in lab)
+        if t not in seen:
+            seen.add(t)
+            out.append(t)
+    return out
+
+
+def big_scenarios(ctx):
+    """(scenario, labelings) beyond the exhaustive scope: structured graphs with 7-10 vertices and boards up to
+    7x7, few or many regions, allow_empty_group on/off, roots at the far end of long classes"""
+    rng = ctx.rng
+    deep = ctx.thorough or getattr(ctx, "deep", False)
+    for (nm, n, es) in structured_graphs(rng, ctx.thorough):
+        order = list(range(n))
+        confs = [(rng.choice([2, 3]), rng.random() < 0.5), (rng.choice([n - 2, n - 1, n]), True),
+                 (rng.choice([n // 2, n, n + 1]), rng.random() < 0.75)]
+        if not deep:
+            confs = rng.sample(confs, 2)
+        for (R, aeg) in confs:
+            R = max(R, 1)
+            roots = None
+            c = rng.random()
+            if c < 0.3:
+                roots = [rng.choice([0, n - 1, -1])] + [None] * (R - 1)       # the root at an end of the order
+            elif c < 0.5:
+                roots = [None] * (R - 1) + [rng.randrange(n)]
+            elif c < 0.6:
+                roots = [rng.choice([None, rng.randrange(n)]) for _ in range(R)]
+            prim = rng.random() < 0.25
+            sc = graph_scenario(rng, n, es, R, aeg, prim, roots, orientation="keep")
+            sc["name"] = nm
+            yield sc, adapt_to_roots(targeted_labelings(rng, n, R, [order], n_random=2), oracle_roots(sc), R)
+    boards = [(1, 6), (1, 8), (1, 10), (7, 1), (2, 7), (7, 2), (4, 5), (5, 4), (5, 5), (3, 7)]
+    boards += [(7, 7)] if not ctx.thorough else [(7, 7), (6, 7), (1, 16), (8, 8)]
+    for (h, w) in boards:
+        n = h * w
+        orders = board_orders(h, w)
+        confs = [(rng.choice([2, 3]), rng.random() < 0.5), (rng.choice([n - 1, n]), True),
+                 (rng.choice([5, max(n // 2, 2)]), rng.random() < 0.7)]
+        if not deep and n >= 20:
+            confs = rng.sample(confs, 2)
+        for (R, aeg) in confs:
+            roots = None
+            c = rng.random()
+            far = [(0, 0), (h - 1, w - 1), (h - 1, 0), (0, w - 1), (h // 2, w // 2)]
+            if c < 0.35:
+                roots = [rng.choice(far)] + [None] * (R - 1)
+            elif c < 0.55:
+                roots = [None] * (R - 1) + [rng.choice(far)]
+            elif c < 0.65:
+                roots = [rng.choice([None, (rng.randrange(h), rng.randrange(w))]) for _ in range(R)]
+            prim = rng.random() < 0.25
+            sc = grid_scenario(rng, h, w, R, aeg, prim, roots)
+            sc["name"] = "board%dx%d" % (h, w)
+            use = [orders[k] for k in rng.sample(sorted(orders), 2 if n >= 20 and not deep else 3)]
+            pats = [lab for (_, lab) in board_patterns(h, w, R)]
+            yield sc, adapt_to_roots(targeted_labelings(rng, n, R, use, extra=pats, n_random=1 if n >= 20 else 2),
+                                     oracle_roots(sc), R)
 
 
 def search(ctx):
     from cspuz import Solver
-    from cspuz.graph import _division_connected, division_connected
+    from cspuz.graph import _division_connected
     m = None
     try:
         m = ctx.model("C05")
@@ -580,53 +1141,60 @@ def search(ctx):
         ctx.note("extracted model unavailable during search: specification not cross-checked")
     spec_reqs, spec_expect = [], []
     ev_reqs, ev_meta = [], []
+    rng = ctx.rng
 
-    def decide(tag, s, dvars, n, es, R, aeg, prim, roots_oracle, kind, roots_shown, extra=None):
+    def decide(tag, sc, labelings=None):
+        n, es, R, aeg, prim, kind = sc["n"], sc["edges"], sc["R"], sc["aeg"], sc["prim"], sc["kind"]
+        r = vlib.guarded(post_scenario, sc)
+        ctx.count("search-route:" + ("primitive" if prim else "aux"))
+        ctx.count("search-roots-form:" + ("none" if sc["roots"] is None else sc["rform"]))
+        ctx.count("search-history:" + sc["hist"])
+        ctx.count("search-orientation:" + ("none" if not es else "asc" if all(a <= b for a, b in es) else
+                                           "desc" if all(a >= b for a, b in es) else "mixed"))
+        if r[0] == "err":
+            ctx.violation(viol_key("raise-" + tag, n, es, R, aeg, prim, sc["roots"], kind, (), sc),
+                          "division_connected / _division_connected raised on a well-formed call",
+                          {"scenario": sc, "error": r[1], "call": tag})
+            return
+        s, dvars = r[1]
+        roots_o = oracle_roots(sc)
         sess = Session(s)
-        sample = ctx.rng.random() < 0.25
-        for lab in itertools.product(range(R), repeat=n):
+        sample = rng.random() < 0.25
+        exhaustive = labelings is None
+        for lab in (itertools.product(range(R), repeat=n) if exhaustive else labelings):
             fixed = list(zip(dvars, lab))
-            want = sample and ctx.rng.random() < 0.05
+            want = sample and rng.random() < (0.05 if exhaustive else 0.3)
             if want:
                 obs, model = sess.check(fixed, want_model=True)
             else:
                 obs, model = sess.check(fixed), None
-            exp = oracle(n, es, R, lab, roots_oracle, aeg)
-            ctx.prop_case(tag, (n, tuple(es), R, aeg, prim, kind, repr(roots_shown), lab))
+            exp = oracle(n, es, R, lab, roots_o, aeg)
+            ctx.prop_case(tag, (n, tuple(es), R, aeg, prim, kind, repr(sc["roots"]), sc["fn"], sc["rform"],
+                                sc["eform"], sc["cf"], sc["hist"], lab))
+            ctx.count("search-expected:" + tag + (":sat" if exp else ":unsat"))
             if obs != exp:
                 d = {"graph": {"n": n, "edges": es}, "num_regions": R, "allow_empty_group": aeg,
-                     "use_graph_primitive": prim, "division_kind": kind, "roots": roots_shown,
-                     "labels": list(lab), "expected_satisfiable": exp, "observed_satisfiable": obs, "call": tag}
-                if extra:
-                    d.update(extra)
-                ctx.violation(viol_key(tag, n, es, R, aeg, prim, roots_shown, kind, lab),
+                     "use_graph_primitive": prim, "division_kind": kind, "roots": sc["roots"],
+                     "roots_form": sc["rform"], "entry_form": sc["eform"], "history": sc["hist"],
+                     "labels": list(lab), "expected_satisfiable": exp, "observed_satisfiable": obs, "call": tag,
+                     "scenario": sc}
+                if sc.get("shape"):
+                    d["shape"] = sc["shape"]
+                ctx.violation(viol_key(tag, n, es, R, aeg, prim, sc["roots"], kind, lab, sc),
                               "satisfiability of the posted constraints differs from 'every class connected, "
                               "labels used, roots labelled'", d)
             if model is not None and m is not None:
                 ev_reqs.append("EV %s A %s" % (exprio.show_state(s), env_tok(s, model)))
                 ev_meta.append((tag, n, tuple(es), R, lab))
-            if m is not None and ctx.rng.random() < 0.1:
+            if m is not None and rng.random() < 0.1:
                 spec_reqs.append("S %d %d %s %s %s" % (R, aeg, graphcap.graph_tok(n, es),
-                                                       roots_tok(roots_oracle), " ".join(str(x) for x in lab)))
-                spec_expect.append((exp, (n, tuple(es), R, aeg, repr(roots_oracle), lab)))
+                                                       roots_tok(roots_o), " ".join(str(x) for x in lab)))
+                spec_expect.append((exp, (n, tuple(es), R, aeg, repr(roots_o), lab)))
 
-    for (n, es, R, aeg, prim, roots, kind) in search_scopes(ctx):
-        s = Solver()
-        d = s.int_array(n, 0, R - 1)
-        g = graphcap.mk_graph(n, es)
-        r = vlib.guarded(lambda: _division_connected(s, d if kind == "A" else list(d), R, g, roots=roots,
-                                                     allow_empty_group=aeg, use_graph_primitive=prim))
-        ctx.count("search-route:" + ("primitive" if prim else "aux"))
-        if r[0] == "err":
-            ctx.violation(viol_key("raise", n, es, R, aeg, prim, roots, kind, ()),
-                          "_division_connected raised on a well-formed call",
-                          {"graph": {"n": n, "edges": es}, "num_regions": R, "allow_empty_group": aeg,
-                           "use_graph_primitive": prim, "division_kind": kind, "roots": roots, "error": r[1]})
-            continue
-        decide("graph", s, list(d), n, es, R, aeg, prim, resolve_roots(roots, n), kind, roots)
+    for sc in search_scopes(ctx):
+        decide("graph", sc)
 
     # constant (Python int) labels: one program per labeling
-    rng = ctx.rng
     for _ in range(300 if ctx.thorough else 60):
         n, es = graphcap.random_multigraph(rng, 5, loops=rng.random() < 0.2)
         R = rng.choice([1, 2, 3])
@@ -636,51 +1204,60 @@ def search(ctx):
         s = Solver()
         free = s.int_array(n, 0, R - 1)
         labels = [lab[v] if rng.random() < 0.6 else free[v] for v in range(n)]
+        kind = rng.choice(["L", "T", "S", "A"])
         g = graphcap.mk_graph(n, es)
-        r = vlib.guarded(lambda: _division_connected(s, labels, R, g, allow_empty_group=aeg,
+        r = vlib.guarded(lambda: _division_connected(s, mk_division(labels, kind), R, g, allow_empty_group=aeg,
                                                      use_graph_primitive=prim))
         if r[0] == "err":
-            ctx.violation(viol_key("raise-const", n, es, R, aeg, prim, None, "L", lab),
+            ctx.violation(viol_key("raise-const", n, es, R, aeg, prim, None, kind, lab),
                           "_division_connected raised on a well-formed call with int labels",
                           {"graph": {"n": n, "edges": es}, "num_regions": R, "labels": lab, "error": r[1]})
             continue
         sess = Session(s)
         obs = sess.check([(free[v], lab[v]) for v in range(n)])
         exp = oracle(n, es, R, lab, None, aeg)
-        ctx.prop_case("graph-constlabels", (n, tuple(es), R, aeg, prim, tuple(lab)))
+        ctx.prop_case("graph-constlabels", (n, tuple(es), R, aeg, prim, kind, tuple(lab)))
         if obs != exp:
-            ctx.violation(viol_key("const", n, es, R, aeg, prim, None, "L", lab),
+            ctx.violation(viol_key("const", n, es, R, aeg, prim, None, kind, lab),
                           "satisfiability with Python-int labels differs from the specification",
                           {"graph": {"n": n, "edges": es}, "num_regions": R, "allow_empty_group": aeg,
                            "use_graph_primitive": prim, "labels": lab, "mixed_labels": [repr(type(x).__name__) for x in labels],
                            "expected_satisfiable": exp, "observed_satisfiable": obs})
 
-    # inferred grids through the public wrapper, roots as (y, x)
+    # inferred grids through the public wrapper, roots as (y, x) in every container / one-shot form
     cells = 6 if ctx.thorough else 5
-    for (h, w) in graphcap.grid_shapes(cells):
+    shapes = list(graphcap.grid_shapes(cells))
+    shapes += [(h, w) for (h, w) in [(1, 6), (6, 1), (2, 3), (3, 2), (1, 7)] if (h, w) not in shapes]
+    for (h, w) in shapes:
         for R in (1, 2, 3):
-            if h * w >= 5 and R == 3 and not ctx.thorough and rng.random() < 0.5:
+            if h * w >= 5 and R == 3 and not ctx.thorough and (h * w >= 6 or rng.random() < 0.5):
                 continue
             for prim in (False, True):
                 aeg = rng.random() < 0.5
                 roots = None
-                if rng.random() < 0.5:
+                if rng.random() < 0.6:
                     roots = [rng.choice([None, (rng.randrange(h), rng.randrange(w))]) for _ in range(R)]
-                s = Solver()
-                d = s.int_array((h, w), 0, R - 1)
+                decide("grid", grid_scenario(rng, h, w, R, aeg, prim, roots))
+    # the roots forms, each at least once with a root below the first row of a non-square board
+    for rform in ROOT_FORMS:
+        for eform in (ENTRY_FORMS if ctx.thorough or getattr(ctx, "deep", False) else ("tuple", rng.choice(ENTRY_FORMS[1:]))):
+            h, w = rng.choice([(2, 3), (3, 2), (2, 2), (1, 4)])
+            R = 2
+            roots = [None, (h - 1, rng.randrange(w))] if rng.random() < 0.5 else [(h - 1, rng.randrange(w)), None]
+            sc = grid_scenario(rng, h, w, R, rng.random() < 0.5, rng.random() < 0.3, roots)
+            sc["rform"], sc["eform"], sc["hist"] = rform, eform, rng.choice(["none", "none", "double"])
+            decide("grid", sc)
+            n, es = rng.choice([(4, [(1, 0), (2, 1), (3, 2)]), (4, [(0, 1), (2, 1), (2, 3), (3, 0)]), (3, [(0, 1), (2, 1)])])
+            sc = graph_scenario(rng, n, es, 2, rng.random() < 0.5, rng.random() < 0.3,
+                                rng.choice([[None, n - 1], [0, None], [n - 1, 0]]), orientation="keep")
+            sc["rform"] = rform
+            if sc["hist"] != "none":
+                sc["hist"] = "double"
+            decide("graph", sc)
 
-                def call():
-                    with cfg_primitive(prim):
-                        division_connected(s, d, R, roots=roots, allow_empty_group=aeg)
-                r = vlib.guarded(call)
-                if r[0] == "err":
-                    ctx.violation("raise-grid:%dx%d:R%d:%r" % (h, w, R, roots), "division_connected raised on a grid",
-                                  {"shape": [h, w], "num_regions": R, "roots": roots, "error": r[1]})
-                    continue
-                ro = None if roots is None else [None if a is None else a[0] * w + a[1] for a in roots]
-                decide("grid", s, list(d.data), h * w, graphcap.grid_edges(h, w), R, aeg, prim, ro, "G",
-                       None if roots is None else [None if a is None else list(a) for a in roots],
-                       extra={"shape": [h, w]})
+    # sizes beyond the exhaustive scope, targeted labelings
+    for sc, labelings in big_scenarios(ctx):
+        decide("big-grid" if sc.get("shape") else "big-graph", sc, labelings)
 
     # cross-checks of the trusted pieces (recorded as correspondence, never as violations)
     if m is not None and spec_reqs:
@@ -696,6 +1273,17 @@ def replay(ctx, rp):
     from cspuz.graph import _division_connected, division_connected
     print(rp)
     v = rp.get("violation", {}).get("detail", {})
+    if v.get("scenario") and "labels" in v:
+        sc = v["scenario"]
+        s, dvars = post_scenario(sc)
+        obs = Session(s).check(list(zip(dvars, v["labels"])))
+        exp = oracle(sc["n"], [tuple(e) for e in sc["edges"]], sc["R"], v["labels"], oracle_roots(sc), sc["aeg"])
+        print("posted program satisfiable:", obs, " specification:", exp)
+        return 1 if obs != exp else 0
+    if v.get("scenario"):
+        r = vlib.guarded(post_scenario, v["scenario"])
+        print("call on a well-formed input:", r[0], r[1] if r[0] == "err" else "")
+        return 1 if r[0] == "err" else 0
     if not v or "labels" not in v:
         return 0
     R, aeg, prim = v["num_regions"], v["allow_empty_group"], v["use_graph_primitive"]
